@@ -54,6 +54,7 @@ def showState : RState → String
   | .hdr2 _ _ => "waiting:hdr2"
   | .hdr3 _ _ _ => "waiting:hdr3"
   | .body n _ => s!"waiting:body{n + 1}"
+  | .pbody _ _ _ n _ => s!"waiting:ping{n + 1}"
   | .echo n => s!"waiting:echo{n + 1}"
   | .discard n => s!"waiting:discard{n + 1}"
   | .closed .oversize => "closed:oversize"
@@ -94,6 +95,7 @@ partial def loop (h : IO.FS.Stream) : IO Unit := do
   let line ← h.getLine
   if line.isEmpty then return ()
   IO.println (answer line.trimAsciiEnd.toString)
+  (← IO.getStdout).flush  -- the family keeps one driver process and talks to it line by line
   loop h
 
 def run (_args : List String) : IO UInt32 := do
